@@ -12,7 +12,8 @@ from ..rules import (callee_is, object_of, field_name, call_args, mentions_field
                      mentions_var, Wrapper, exempt_edges, loops_in, loop_header,
                      loop_iteration_must_pass, enclosing_loops)
 from ..facts import children, strip_all_casts, walk, CALL_KINDS, AnalysisBroken
-from ..boolshape import truth_table, Unsupported
+from ..boolshape import truth_table, Unsupported, Interp, NeedAtom, Throw
+import itertools
 
 
 def is_key_eq(c):
@@ -365,69 +366,119 @@ def r5_one_key_space(chk, prog):
                           'containers')
     chk.require(n_add >= 2, 'additions to the key containers found: %d' % n_add)
     # (b) lookup
+    r5_lookup_table(chk, prog, handler_fns, conts)
+
+
+class _Dispatch(Exception):
+    def __init__(self, token):
+        self.token = token
+
+
+def r5_lookup_table(chk, prog, handler_fns, conts):
+    """Handler::processArg(): which argument a key is dispatched to, for EVERY combination of what the key containers
+    of the handler hold for that key - nothing / an argument with exactly this key / one argument it abbreviates /
+    several arguments it abbreviates.  The lookup code is evaluated abstractly (Engine B) with the container lookups
+    replaced by their contract (findArg: exact match, else the single abbreviation match, else null; throws when
+    the abbreviation is ambiguous; an exact-only lookup: exact match or null) up to the first dispatch
+    (handleIdentifiedArg), throw or return.  Expected: an exact key always selects its own argument; otherwise one
+    abbreviation match in total selects that argument, none is 'unknown', more than one is an exception."""
     fs = [f for f in handler_fns if f.short == 'processArg']
     chk.require(len(fs) == 1, 'Handler::processArg not found')
     f = fs[0]
-    cfg = f.cfg
     finds = [c for c in f.calls() if callee_is(c, 'findArg') and field_name(object_of(c)) in conts]
     chk.require(len(finds) >= 2, 'processArg: lookups in the key containers: %d' % len(finds))
-    first = [c for c in finds if all(c is d or cfg.node_dominates(c, d) for d in finds)]
-    chk.require(len(first) == 1, 'processArg: no first lookup')
-    l1 = first[0]
-    a = field_name(object_of(l1))
-    # the variable that receives the result
-    var = None
-    for n in f.walk():
-        if n.get('k') == 'DeclStmt':
-            for d in n.get('decls', []):
-                if isinstance(d.get('init'), dict) and any(x is l1 for x in walk(d['init'])):
-                    var = d['name']
-    chk.require(var is not None, 'processArg: the result of the first lookup is not stored in a variable')
-    uses = [c for c in f.calls() if callee_is(c, 'handleIdentifiedArg') and call_args(c) and
-            mentions_var(call_args(c)[0], var) and cfg.node_dominates(l1, c) and
-            not any(cfg.node_dominates(l1, d) and cfg.node_dominates(d, c) for d in finds if d is not l1 and
-                    any(isinstance(dd.get('init'), dict) and any(x is d for x in walk(dd['init']))
-                        for n in f.walk() if n.get('k') in ('DeclStmt',) for dd in n.get('decls', [])
-                        if dd['name'] == var))]
-    # assignments  var = other.findArg(...)  re-bind the variable: uses after them belong to that lookup
-    rebinding = []
-    for n in f.walk():
-        if n.get('k') == 'BinaryOperator' and n.get('op') == '=' and any(x is d for d in finds if d is not l1
-                                                                             for x in walk(n)):
-            rebinding.append(n)
-    uses = [c for c in uses if not any(cfg.node_dominates(r, c) for r in rebinding)]
-    chk.require(uses, 'processArg: the result of the first lookup is never dispatched')
+    # the contract of the container lookups is what C05-R2 decides for findArg(); any other lookup function used
+    # here must be an exact-only search: key comparison, no prefix test, no throw
+    exact_only = set()
+    for c in f.calls():
+        o = object_of(c)
+        if o is None or field_name(o) not in conts or callee_is(c, 'findArg'):
+            continue
+        g = prog.by_key.get(c.get('ckey'), [None])[0]
+        if g is None or g.body is None:
+            raise AnalysisBroken('processArg calls %s on a key container; its body is not available' % c.get('callee'))
+        if g.d.get('const') and not any(True for _ in cond_blocks_with(g.cfg, is_key_eq)):
+            continue            # not a lookup (empty(), ...)
+        if not g.d.get('const'):
+            raise AnalysisBroken('processArg calls the non-const %s on a key container' % c.get('callee'))
+        pure = not any(x.get('k') == 'CXXThrowExpr' for x in g.walk()) and \
+            not any(callee_is(x, 'ArgumentKey::startsWith') for x in g.calls())
+        if not pure:
+            raise AnalysisBroken('lookup %s is neither findArg() nor an exact-only search' % c.get('callee'))
+        exact_only.add(g.short)
+    en = prog.enums.get('celma::prog_args::Handler::ArgResult')
+    chk.require(en is not None, 'enum Handler::ArgResult not found')
+    res_vals = {e['name']: e['val'] for e in en['enumerators']}
+    vm = [e for q, e in prog.enums.items() if q.endswith('::ValueMode')]
+    chk.require(vm, 'enum ValueMode not found')
+    vm_none = {e['name']: e['val'] for e in vm[0]['enumerators']}['none']
+    order = sorted(conts)
+    STATES = ('none', 'exact', 'abbrev', 'ambiguous')
+    n = 0
+    for combo in itertools.product(STATES, repeat=len(order)):
+        if combo.count('exact') > 1:
+            continue            # refused at definition time (part (a) and C05-R1)
+        state = dict(zip(order, combo))
+        token = {c: 10 * (i + 1) for i, c in enumerate(order)}      # +1 exact match, +2 abbreviation match
 
-    def exact_test(n):
-        return n.get('k') in CALL_KINDS and (n.get('callee') or '').endswith('ArgumentKey::operator==') and \
-            any(mentions_var(x, var) for x in [object_of(n)] + call_args(n) if x is not None)
-    p1 = cfg.position(l1)
+        def cont_of(call):
+            return field_name(object_of(call))
 
-    def non_null_test(c):
-        # var != nullptr   (the dispatch needs a match: edges on which the variable is null are not on its way)
-        if c.get('k') != 'BinaryOperator' or c.get('op') != '!=':
-            return False
-        x, y = children(c)
-        return mentions_var(x, var) and strip_all_casts(y).get('k') in ('CXXNullPtrLiteralExpr', 'GNUNullExpr',
-                                                                        'IntegerLiteral')
-    null_edges = exempt_edges(f, non_null_test, False)
-    for c in uses:
-        seen = cfg.reach((p1[0], p1[1] + 1), lambda p, e: isinstance(e, int) and f.node(e) is not None and
-                         exact_test(f.node(e)), blocked_edges=null_edges)
-        direct = cfg.position(c) in seen
-        others_ok = True
-        for other in conts:
-            if other == a:
-                continue
-            consulted = [d for d in finds if field_name(object_of(d)) == other and cfg.node_dominates(l1, d) and
-                         cfg.reachable_from(cfg.position(d), cfg.position(c)) and
-                         any(exact_test(x) and cfg.node_dominates(x, d) for x in f.walk())]
-            others_ok = others_ok and bool(consulted)
-        chk.check(not direct and others_ok, 'R5', f.name, 'a match found in %s is used only after its exactness was '
-                  'tested and, for an abbreviation, %s was consulted (exact key wins, second abbreviation is '
-                  'ambiguous)' % (a, ', '.join(x for x in conts if x != a)), f.loc(c),
-                  'the match is dispatched without an exactness test' if direct else
-                  'no lookup in the other container between the exactness test and the dispatch')
+        def cb_find(it, call):
+            st = state[cont_of(call)]
+            if st == 'none':
+                return 0
+            if st == 'ambiguous':
+                raise Throw('ambiguous')
+            return token[cont_of(call)] + (1 if st == 'exact' else 2)
+
+        def cb_exact(it, call):
+            return token[cont_of(call)] + 1 if state[cont_of(call)] == 'exact' else 0
+
+        def cb_key(it, call):
+            o = object_of(call)
+            v = it.ev_obj(o) if o is not None else 0
+            return 1 if v % 10 == 1 else 2          # 1 = the key looked for
+
+        def cb_dispatch(it, call):
+            raise _Dispatch(it.ev_obj(call_args(call)[0]))
+
+        cbs = {'findArg': cb_find, 'key': cb_key, 'handleIdentifiedArg': cb_dispatch,
+               'valueMode': lambda it, call: vm_none}
+        for name in exact_only:
+            cbs[name] = cb_exact
+        it = Interp(f, {'key': 1, 'this.mpLastArg': 0}, callbacks=cbs, prog=None)
+        try:
+            out = it.run(f.body)
+        except _Dispatch as d:
+            out = ('dispatch', d.token)
+        except (NeedAtom, Unsupported) as e:
+            raise AnalysisBroken('processArg lookup logic not interpretable for %s: %s' % (state, getattr(
+                e, 'key', e)))
+        exact = [c for c in order if state[c] == 'exact']
+        nabbr = sum({'abbrev': 1, 'ambiguous': 2}.get(state[c], 0) for c in order)
+        if exact:
+            want = ('dispatch', token[exact[0]] + 1)
+        elif nabbr == 0:
+            want = ('return', res_vals.get('unknown'))
+        elif nabbr == 1:
+            want = ('dispatch', [token[c] + 2 for c in order if state[c] == 'abbrev'][0])
+        else:
+            want = ('throw', None)
+        ok = out[0] == want[0] and (want[0] == 'throw' or out[1] == want[1])
+        n += 1
+
+        def show(o):
+            if o[0] == 'dispatch':
+                c = [c for c in order if token[c] == o[1] - o[1] % 10]
+                return 'dispatches the %s match of %s' % ('exact' if o[1] % 10 == 1 else 'abbreviation', c[0] if c else o[1])
+            if o[0] == 'throw':
+                return 'throws'
+            return 'returns %s' % {v: k for k, v in res_vals.items()}.get(o[1], o[1])
+        chk.check(ok, 'R5', f.name, 'key lookup over both containers [%s]: %s' % (
+            ', '.join('%s: %s' % (c, state[c]) for c in order), show(want)), f.loc(),
+            'processArg %s' % show(out))
+    chk.require(n >= 12, 'lookup combinations evaluated: %d' % n)
 
 
 def r6_key_parsing(chk, prog):
